@@ -107,6 +107,53 @@ def description_texts():
     return out
 
 
+def reflow_cases(chk, quick, W):
+    """Word-level re-flow model (spec/BclReflow.tla): every description of <= MaxToks tokens over words whose lengths sit
+    around the line width, extra spaces, white-space-only words, line breaks and paragraph breaks; the laws Idempotent /
+    WordsPreserved / LinesFit are checked by TLC on the intended algorithm, every description is formatted by the real
+    code (laws on the real text; the predicted lines are compared as drift)."""
+    out = []
+    cfgs = ["BclReflow_i0.cfg", "BclReflow_i1.cfg"] if quick else ["BclReflow_i0t.cfg", "BclReflow_i1.cfg", "BclReflow_i2t.cfg"]
+    for cfg in cfgs:
+        r = chk.tlc("BclReflow.tla", cfg, cfg[:-4], workers=W, timeout=1800)
+        if r.violated or r.error:
+            chk.machinery_errors.append("BclReflow %s: %s %s" % (cfg, r.violated, (r.error or "")[:300]))
+        for c in r.cases:
+            ind = "\t" * c["indent"]
+            letters = "abcdefghijklmnopqrstuvwxyz"
+            lines, cur, k = [], None, 0
+            for t in c["toks"]:
+                if t[0] == "w":
+                    w = letters[k % 26] * t[1]
+                    k += 1
+                    cur = w if cur is None else cur + " " + w
+                elif t[0] == "gap":
+                    cur = (cur or "") + " "
+                elif t[0] == "blank":
+                    cur = (cur or "") + " \t"
+                elif t[0] == "nl":
+                    lines.append(cur or "")
+                    cur = None
+                elif t[0] == "para":
+                    lines.append(None)
+            if cur is not None:
+                lines.append(cur)
+            body = "".join(ind + ("|" if l is None else "| " + l) + "\n" for l in lines)
+            k = 0
+            want = []
+            for l in c["lines"]:
+                ws = []
+                for n in l:
+                    ws.append(letters[k % 26] * n)
+                    k += 1
+                want.append(ind + ("| " + " ".join(ws) if ws else "|") + "\n")
+            pre = "".join("\t" * j + "b%d {\n" % j for j in range(c["indent"]))
+            post = "".join("\t" * j + "}\n" for j in reversed(range(c["indent"])))
+            out.append({"text": pre + body + post, "want": pre + "".join(want) + post, "cls": "reflow-model"})
+        r.cases = []
+    return out
+
+
 def validate(chk, spec, cfg, events, name, law_props, drift_key):
     """Run a trace specification over events. Returns (status, result)."""
     if not events:
@@ -219,6 +266,8 @@ def run(chk):
             raw.append({"text": m, "cls": "fixture-mutation"})
     for t in description_texts():
         raw.append({"text": t, "cls": "description-reflow"})
+    if prop in ("C09", "C19"):
+        raw += reflow_cases(chk, quick, W)
     for t in random_texts(rng, 1500 if quick else 40000):
         raw.append({"text": t, "cls": "random"})
     # canonical texts with other whitespace: re-indent / blank lines of fixtures
